@@ -53,7 +53,9 @@ THEOREMS = ['C16_S_vec', 'C16_S_point', 'C16_S_vec_box_partial', 'C16_S_point_bo
             'C16_S_point_pinned_refuted', 'C16_M_pinned_refuted', 'C16_M_vec_pinned_refuted', 'C16_S_underflow_refuted',
             'C16_R_nudge_forward', 'C16_R_no_box_point_ahead', 'C16_R_advance_bounded', 'C16_R_ray', 'C16_R_ray_propagate',
             # the same on primitive floats (Properties/C16_prim.v)
-            'C16_prim_run_is_flocq_run', 'C16_prim_blocks_are_flocq_blocks', 'C16_prim_rays_are_flocq_rays', 'C16_prim_ray_parts', 'C16_prim_S_vec', 'C16_prim_S_point', 'C16_prim_S_vec_box_partial', 'C16_prim_S_point_box_partial', 'C16_prim_M_with_error', 'C16_prim_M_vec_with_error', 'C16_prim_M_propagate', 'C16_prim_M_vec_propagate']
+            'C16_prim_run_is_flocq_run', 'C16_prim_blocks_are_flocq_blocks', 'C16_prim_rays_are_flocq_rays', 'C16_prim_ray_parts', 'C16_prim_S_vec', 'C16_prim_S_point', 'C16_prim_S_vec_box_partial', 'C16_prim_S_point_box_partial', 'C16_prim_M_with_error', 'C16_prim_M_vec_with_error', 'C16_prim_M_propagate', 'C16_prim_M_vec_propagate',
+            # the same on the executed f32 instance (Properties/C16_prim32.v)
+            'C16_prim32_run_is_flocq_run', 'C16_prim32_embedded_run_is_flocq_run', 'C16_prim32_blocks_are_flocq_blocks', 'C16_prim32_rays_are_flocq_rays', 'C16_prim32_S_vec', 'C16_prim32_S_point', 'C16_prim32_S_vec_box_partial', 'C16_prim32_S_point_box_partial', 'C16_prim32_M_with_error', 'C16_prim32_M_vec_with_error', 'C16_prim32_M_propagate', 'C16_prim32_M_vec_propagate']
 
 def streams(tier):
     if tier == 'quick': return [Stream('C16', 1500)]
